@@ -201,6 +201,16 @@ def runCache (ts : List String) : String :=
                      | some cb => go fuel rest (.setFile nb (some cb) :: acc)
                      | none => none
       | none => none
+    | fuel+1, "B" :: b :: rest, acc =>
+      if b == "-" then go fuel rest (.addLoader [] :: acc)
+      else (Bytes.ofHex b).bind fun bb => go fuel rest (.addLoader bb :: acc)
+    | fuel+1, "V" :: i :: n :: c :: rest, acc =>
+      match i.toNat?, Bytes.ofHex n with
+      | some ix, some nb => if c == "!" then go fuel rest (.setFileIn ix nb none :: acc)
+                   else match Bytes.ofHex c with
+                     | some cb => go fuel rest (.setFileIn ix nb (some cb) :: acc)
+                     | none => none
+      | _, _ => none
     | _, _, _ => none
   match go (ts.length + 1) ts [] with
   | none => "bad-request"
